@@ -482,7 +482,7 @@ def formatting_invariants(ctx):
         matches(trims[0].body[0], 'self._tb_lines = self._tb_lines[1:]') and not [x for x in f.own_nodes() if isinstance(x, (ast.ListComp, ast.GeneratorExp))]
     ctx.ob(ok, f, 'only a leading caret-only line of the kept traceback tail is dropped: %s' % [norm(t.test) for t in trims],
            '' if ok else 'lines of the original error message could be filtered out')
-    keep = [n for n in f.own_nodes() if isinstance(n, ast.Assign) and matches(n, 'self._tb_lines = $t[-$l:]')]
+    keep = [n for n in f.own_nodes() if isinstance(n, ast.Assign) and matches(n, 'self._tb_lines = $t[-$$l:]')]
     ctx.ob(len(keep) == 1, f, 'the message keeps the tail of the original traceback (the original error lines)')
     # truncation: long values are cut to the width with a length suffix, never dropped
     tv = ctx.unit('core._format_trace_value')
